@@ -141,13 +141,13 @@ def r1(ctx):
     ctx.ob(run.qual, "chromosome-loop-no-early-exit", not exits, run.loc(exits[0]) if exits else run.loc(cl), "the chromosome loop runs over every reference of the BAM" if not exits else "the chromosome loop can be left before all chromosomes are processed")
     # regions default covers every reference
     nr = ctx.func(MOD + ".normalize_user_regions")
-    ok = False
+    ok = None  # undecided unless a loop over the BAM references is found: another construction is not a violation by itself
     for n in walk_function(nr.node):
         if isinstance(n, ast.For) and u(n.iter) == util.params_of(nr.node)[1]:
             ga = guard_atoms(ctx.cfg(nr), ctx.cfg(nr).node_of(n))
             app = [c for c in ast.walk(n) if isinstance(c, ast.Call) and isinstance(c.func, ast.Attribute) and c.func.attr == "append" and u(c.args[0]) == "(0, None)"]
             ok = ("None is %s" % util.params_of(nr.node)[0], True) in ga and bool(app)
-    ctx.ob(nr.qual, "no-regions-means-whole-references", ok, nr.loc(), "without --regions every BAM reference gets the region (0, None)" if ok else "default regions do not cover every reference completely")
+    ctx.ob(nr.qual, "no-regions-means-whole-references", ok, nr.loc(), "without --regions every BAM reference gets the region (0, None)" if ok else ("default regions do not cover every reference completely" if ok is False else "cannot read how normalize_user_regions builds the default regions"))
 
 
 def _alignment_effects(ctx, fi, pname, seen, out):
